@@ -67,6 +67,9 @@ def plan(S, prop, mode, tier, avoid):
                                       (r.randrange(1000001, 2600000), 0.004)]),      # rarely more than a million points
                        "ra": ra, "dec": dec, "rad": _draw_radius(r, avoid_small),
                        "get_radius": chance(r, 0.5), "dorot": chance(r, 0.3)})
+            if chance(r, 0.12):
+                op["cty"] = pick(r, ["f4", "f4", "f8"])
+                op["rty"] = chance(r, 0.5)
             if op["n"] > 100000:
                 op["edge"] = 0.0            # (edge deviates are forced one by one in Python: not for a million draws)
                 op["rad"] = max(op["rad"], 1e-3)
@@ -222,6 +225,19 @@ def do_cap(run, op):
     judge = run.prop == "C19"
     n, ra, dec, rad = op["n"], op["ra"], op["dec"], op["rad"]
     kw = {"get_radius": op["get_radius"], "dorot": op["dorot"]}
+    ra_arg, dec_arg, rad_arg = ra, dec, rad
+    cty = op.get("cty", "py")
+    if cty != "py":
+        # the centre (and radius) come out of a catalogue column: numpy scalars, single precision among them.  The
+        # centre IS the exact value of the scalar that is passed
+        t = np.float32 if cty == "f4" else np.float64
+        ra_arg, dec_arg = t(ra), t(dec)
+        ra, dec = float(ra_arg), float(dec_arg)
+        if op.get("rty"):
+            rad_arg = t(rad)
+            rad = float(rad_arg)
+        if cty == "f4":
+            run.fault("cap_centre_given_as_float32_scalars")
     rot = op["dorot"] or abs(dec) >= 89.9
     rng = _mk_rng(op)
     feats = {"call": "randcap", "rot": bool(rot), "get_radius": op["get_radius"]}
@@ -231,7 +247,7 @@ def do_cap(run, op):
     if rot:
         run.fault("forced_rotation_path")
     try:
-        out = coords.randcap(n, ra, dec, rad, rng=rng, **kw)
+        out = coords.randcap(n, ra_arg, dec_arg, rad_arg, rng=rng, **kw)
     except Exception as e:
         run.event(0, "cap", sdigest(op), "error(%s)" % type(e).__name__)
         if judge:
@@ -306,13 +322,13 @@ def do_cap(run, op):
             return
     # reproducibility: same seeded source -> bit-identical output (SimRNG and real numpy)
     run.checks += 1
-    out2 = coords.randcap(n, ra, dec, rad, rng=_mk_rng(op), **kw)
+    out2 = coords.randcap(n, ra_arg, dec_arg, rad_arg, rng=_mk_rng(op), **kw)
     if not _same(tuple(out), tuple(out2)):
         run.fail("rng.cap.repro", feats, "two randcap calls with equal seeded sources differ")
         return
     try:
-        r1 = coords.randcap(n, ra, dec, rad, rng=_real_rng(op), **kw)
-        r2 = coords.randcap(n, ra, dec, rad, rng=_real_rng(op), **kw)
+        r1 = coords.randcap(n, ra_arg, dec_arg, rad_arg, rng=_real_rng(op), **kw)
+        r2 = coords.randcap(n, ra_arg, dec_arg, rad_arg, rng=_real_rng(op), **kw)
     except Exception as e:
         run.fail("rng.cap.real", dict(feats, flavour=op["flavour"]), "randcap with a real %s numpy generator raised %r" % (op["flavour"], e))
         return
